@@ -157,6 +157,9 @@ let model_answer m (o : obs) =
 let handle kind c =
   match kind with
   | "ops" ->
+    (* how the storage root was spelled (absolute / relative to the working directory): no input of the model,
+       a bucket is the directory it denotes *)
+    let spelling = next_bytes c in
     let ops = next_list c parse_op in
     let confined = next_bool c in
     let tree = parse_tree c in
@@ -175,7 +178,7 @@ let handle kind c =
            let (ma, fs') = model_answer !fs o in
            if ma <> o.impl then diff (Printf.sprintf "op%d-%s" !i (show_op o.op)) ~model:ma ~impl:o.impl;
            fs := fs');
-        judge (Printf.sprintf "op %d" !i) st o) ops;
+        judge (Printf.sprintf "%sop %d" (if spelling = [] then "" else Printf.sprintf "storage root spelled %S: " (string_of_bytes spelling)) !i) st o) ops;
     if not confined then prop "confined" "a path outside the bucket directory was created or changed";
     check_tree "" !fs st tree
   | "multi" ->
